@@ -680,7 +680,8 @@ def _tree_ops(llparser, p, raw, text):
     same = len(found) == len(own) and all(a is b for a, b in zip(found, own))
     o["find_raw"] = None if same else [_flat(found, text), _flat(own, text)]
     # get_orig_text with the same text in another representation
-    o["alt"] = [[_orig_obs(n, alt) for n in own] for _, alt in alt_texts(text)]
+    # (asked of the elements find_all lists: the model answers for its own depth-first list)
+    o["alt"] = [[_orig_obs(n, alt) for n in found] for _, alt in alt_texts(text)]
     # the same lines handed to parse() as another kind of iterable
     o["tuple_parse"] = None
     if isinstance(text, list):
